@@ -174,13 +174,19 @@ def run_abf(exe, case, scratch, timeout=30.0):
 
 SIGMA = 1.0 / 64      # so narrow that a hill centred in a bin contributes exactly its weight to that bin and 0.0 elsewhere
 
+def rid(case, w):
+    """name of walker w: given in the configuration, or (idfromcomm: no replicaID keyword, replica interface of the engine
+    available) the replica index the engine reports"""
+    return ("%d" % w) if case.get("idfromcomm") else ("w%d" % w)
+
+
 def meta_conf(case, rid, registry):
     return ["colvar {", "  name v0", "  lowerBoundary 0", "  upperBoundary %d" % case["nbins"], "  width 1",
             "  distanceZ {", "    main { atomNumbers 1 }", "    ref { dummyAtom (0,0,0) }", "    axis (0,0,1)", "  }", "}",
             "metadynamics {", "  name m", "  colvars v0", "  hillWeight 1", "  gaussianSigmas %r" % SIGMA,
             "  newHillFrequency %d" % case["hillfreq"]] + (["  useGrids on", "  writeFreeEnergyFile off"] if case.get("grids", True) else ["  useGrids off"]) + [
           ] + (["  stepZeroData on"] if case.get("szd") else []) + [
-            "  multipleReplicas on", "  replicaID %s" % rid, "  replicasRegistry %s" % registry,
+            "  multipleReplicas on"] + ([] if case.get("idfromcomm") else ["  replicaID %s" % rid]) + ["  replicasRegistry %s" % registry,
             "  replicaUpdateFrequency %d" % case["upfreq"], "}"]
 
 
@@ -256,7 +262,10 @@ def content(d, grid, nbins):
                 ok = False
     # keepHills is off: project_hills() erases the list after projecting it, so the list holds exactly the
     # hills that are not in the grid yet
-    for (it, ctr, wgt, rep) in d["hills"]:
+    # (with grids, the hills in front of new_hills_begin are on the grid already: after a state was read, those are the hills
+    # next to the boundaries, which the state lists explicitly in addition to the grid)
+    skip = int(d.get("newbegin", 0)) if grid is not None else 0
+    for (it, ctr, wgt, rep) in d["hills"][skip:]:
         b = int(ctr)        # centres are b + 0.5
         if 0 <= b < nbins:
             c[b] += wgt
@@ -280,15 +289,15 @@ def run_meta(exe, case, scratch, timeout=30.0):
         os.remove(reg)
     out = []
     gen = [0] * n
-    with W.Team(exe, n, dirs, connect=False) as T:
+    with W.Team(exe, n, dirs, connect=bool(case.get("idfromcomm"))) as T:
         started = [False] * n
         for k, ev in enumerate(case["events"]):
             w = ev[1]
-            snap = file_snapshot(dirs, gen, n)
+            snap = file_snapshot(dirs, gen, n, case)
             if not started[w]:
-                r0 = T.walkers[w].do(meta_setup(case, "w%d" % w, reg, "out0", case["restartfreq"][w]), timeout)
+                r0 = T.walkers[w].do(meta_setup(case, rid(case, w), reg, "out0", case["restartfreq"][w]), timeout)
                 started[w] = True
-                snap = file_snapshot(dirs, gen, n)
+                snap = file_snapshot(dirs, gen, n, case)
             if ev[0] == "s":
                 r = T.walkers[w].do(["pos 1 0 0 %s" % float(ev[2] + 0.5).hex(), "step", "errtext", "dumpmeta m"], timeout)
                 out.append((w, snap, parse_meta(r)))
@@ -296,16 +305,16 @@ def run_meta(exe, case, scratch, timeout=30.0):
                 if ev[2]:
                     gen[w] += 1
                 r = T.walkers[w].do(["postrun", "save text st%d" % k] +
-                                    meta_setup(case, "w%d" % w, reg, "out%d" % gen[w], case["restartfreq"][w], load="st%d" % k), timeout)
+                                    meta_setup(case, rid(case, w), reg, "out%d" % gen[w], case["restartfreq"][w], load="st%d" % k), timeout)
                 out.append((w, snap, parse_meta(r)))
     return out
 
 
-def file_snapshot(dirs, gen, n):
+def file_snapshot(dirs, gen, n, case=None):
     snap = {}
     for i in range(n):
-        hp = os.path.join(dirs[i], "out%d.colvars.m.w%d.hills" % (gen[i], i))
-        sp = os.path.join(dirs[i], "out%d.colvars.m.w%d.state" % (gen[i], i))
+        hp = os.path.join(dirs[i], "out%d.colvars.m.%s.hills" % (gen[i], rid(case or {}, i)))
+        sp = os.path.join(dirs[i], "out%d.colvars.m.%s.state" % (gen[i], rid(case or {}, i)))
         hb = read_bytes(hp)
         snap[i] = {"hills_size": len(hb) if hb is not None else None,
                    "state_step": state_step(sp), "gen": gen[i],
